@@ -290,6 +290,31 @@ func c08Scenario(p c08P, b Bounds) *Scenario {
 						}
 					}
 				}
+				// R6b: a record that the channel delivers together with io.EOF is still a record: a valid notification in it
+				// was received before the connection ended and is handed to its handler
+				for i, e := range x.Log {
+					if e.K != "fault" || e.Arg(1) != "recv-data+EOF" || i+1 >= len(x.Log) || x.Log[i+1].K != "taken" {
+						continue
+					}
+					ms, _, perr := parseRecord([]byte(x.Log[i+1].Arg(2)))
+					if perr != nil || (callStop >= 0 && callStop < i) {
+						continue
+					}
+					for _, m := range ms {
+						if !m.Has("method") || (m.Has("id") && m.ID() != "null") || m.Str("jsonrpc") != `"2.0"` || m.Has("result") || m.Has("error") {
+							continue
+						}
+						var meth string
+						fmt.Sscanf(m.Str("method"), "%q", &meth)
+						if strings.HasPrefix(meth, "unknown.") || meth == "" {
+							continue
+						}
+						Hit("C08.R6")
+						if findEv(x, 0, "h_exit", meth) < 0 {
+							v = append(v, Viol{"C08.R6", fmt.Sprintf("notification %s arrived in the final record (delivered together with io.EOF) but its handler never ran", meth)})
+						}
+					}
+				}
 				// R7: nothing left behind
 				Hit("C08.R7")
 				if s := findEv(x, 0, "snapshot"); s >= 0 {
